@@ -7,8 +7,8 @@ import json
 import bindgen as G
 import bindlib as B
 
-WIDE_FEATURES = {"attr", "elem", "child", "list", "text", "ns", "nillable", "tokens", "wrapper"}
-FEAT = {"nillable": True, "tokens": True, "wrapper": True}
+WIDE_FEATURES = {"attr", "elem", "child", "list", "text", "ns", "nillable", "tokens", "wrapper", "sequence"}
+FEAT = {"nillable": True, "tokens": True, "wrapper": True, "sequence": True}
 
 TYPING = ("out-of-claim: None inside a list that is not nillable", "out-of-claim: None where the default is not None")
 TOKEN = "out-of-claim: empty token or token with white space (xs:list)"
@@ -38,7 +38,7 @@ def regions(desc, value):
         if x is None:
             return bool(md.get("nillable"))
         if isinstance(x, dict) and "list" in x:
-            return bool(md.get("wrapper")) or bool(x["list"]) or bool(md.get("tokens") and md.get("nillable"))
+            return bool(x["list"]) or bool(md.get("tokens") and md.get("nillable"))  # an empty wrapper element is not counted
         return True
 
     def has_content(c, v):
@@ -122,15 +122,34 @@ def regions(desc, value):
     return out
 
 
+def _seq_ok(vs):
+    """`seqOK` of Bind/FN.lean: no token-list var and no wrapped var is rolled with a sequence group
+    (the group reaches from its first to its last member, vars in between are rolled along)"""
+    vs = sorted(vs, key=lambda v: v["index"])
+    i = 0
+    while i < len(vs):
+        sq = vs[i]["sequence"]
+        if sq is None:
+            i += 1
+            continue
+        last = max(j for j in range(i, len(vs)) if vs[j]["sequence"] == sq)
+        if any(v["tokens"] or v["wrapper_qname"] for v in vs[i:last + 1]):
+            return False
+        i = last + 1
+    return True
+
+
 def ctx_expected(ctx, ns_agree):
     """`ctxOK FEAT` on exported universes of WIDE_FEATURES: everything but the namespace chains of
-    C01-ns-chain and nillable lists of token lists (finding C01-nillable-token-lists-empty)"""
+    C01-ns-chain, nillable lists of token lists (C01-nillable-token-lists-empty) and token-list or
+    wrapped vars inside a sequence group (C01-tokens-in-sequence-typeerror)"""
     for ci in ctx["classes"]:
         for _, m in ci["metas"]:
-            for _, vs in m["elements"]:
-                for v in vs:
-                    if v["tokens"] and v["list_element"] and v["nillable"]:
-                        return False
+            vs = [v for _, vv in m["elements"] for v in vv]
+            if any(v["tokens"] and v["list_element"] and v["nillable"] for v in vs):
+                return False
+            if not _seq_ok(vs):
+                return False
     return ns_agree(ctx)
 
 
@@ -195,12 +214,20 @@ EMPTY_TOKENS_TEXT = _case(
         {"name": "Root", "fields": [_f("c", {"list": {"cls": "Leaf"}}, LIST, type="Element")]}]},
     {"obj": "Root", "fields": [["c", {"list": [{"obj": "Leaf", "fields": [["v", {"list": []}]]}]}]]},
 )
-# findings of fragments that are not proved yet (sequence, Attributes)
-TOKENS_IN_SEQUENCE = (
+# excluded at the level of the universe (`seqOK`), and a finding of a fragment that is not proved yet
+TOKENS_IN_SEQUENCE = _case(
     {"classes": [{"name": "Root", "fields": [
         _f("a", {"list": "int"}, LIST, type="Element", sequence=1, tokens=True),
         _f("b", {"list": "str"}, LIST, type="Element", sequence=1)]}]},
     {"obj": "Root", "fields": [["a", {"list": [{"int": 1}, {"int": 2}]}], ["b", {"list": [{"str": "x"}]}]]},
+)
+SEQUENCE_OK = _case(
+    {"classes": [{"name": "Root", "fields": [
+        _f("a", {"list": "int"}, LIST, type="Element", sequence=1),
+        _f("m", {"opt": "str"}, NONE, type="Element"),
+        _f("b", {"list": "str"}, LIST, type="Element", sequence=1, nillable=True)]}]},
+    {"obj": "Root", "fields": [["a", {"list": [{"int": 1}, {"int": 2}, {"int": 3}]}], ["m", {"str": "mid"}],
+                               ["b", {"list": [{"str": "x"}, None]}]]},
 )
 NIL_IN_ATTRIBUTES = (
     {"classes": [
